@@ -33,9 +33,14 @@ implementation (every connection is served to the end of its script in every run
 C41_waiting_not_dropped and C41_all_can_complete (every run can be continued to one where all connections are Done,
 proof/L_ConnIsoLive.v).
 Scripts: calls after which the connection is reusable (unary, iterate stop/close/cancel, exchange close/cancel);
-abandon only as a connection's last call; a stream whose init raises is called through its *_h method unless it is the
-last call (with a headerless method the error is only seen at the first read and the input sent by then is taken for
-the next request -- a single-connection matter, C01 key socket-headerless-init-outcome-unobserved-until-first-read).
+abandon only as a connection's last call; a stream whose init fails (raises, returns a non-Stream) is ALWAYS called through
+its *_h method: with a headerless method the error is only seen at the first read, and what the client sends meanwhile (a
+tick, or the end-of-input of close()) is taken for the next request -- the next call gets a protocol error, or serve() ends
+the connection while its client is still connected (reproduced alone: exchange(init raises) + close() with zero reads, then
+any call -> TransportError).  That is a single-connection matter (C04 "headerless stream init error desyncs the
+connection", C01 key socket-headerless-init-outcome-unobserved-until-first-read) outside what run_pipe composes call by
+call.  The controller reports a serve() that returns while its client is still connected as
+threaded-server:serve-ended-before-client-disconnected.
 The except/finally path of _handle (serve() raising) is exercised by an injected fault: the gauge wrapper raises after
 the inner serve() returned for chosen connections; their slots must be released all the same.
 """
@@ -124,9 +129,12 @@ def gen_call(rng: Any, pool: dict[str, list[int]], progs: dict[int, dict[str, An
         return ["unary", pid]
     n = len(progs[pid]["steps"])
     h = "_h" if rng.random() < 0.4 else ""
-    if (progs[pid]["init"] != "ok") and not last:
-        # a headerless stream whose init raised is only noticed at the first read; the input the client has sent by then
-        # is taken for the next request (single-connection matter: C01 key socket-headerless-init-outcome-unobserved-until-first-read)
+    if progs[pid]["init"] != "ok":
+        # a headerless stream whose init failed is only noticed at the first read: what the client sends meanwhile (a tick, or
+        # the end-of-input of close()) is taken for the next request -- the next call is answered with a protocol error, or
+        # serve() ends the connection while the client is still connected.  Single-connection matter (C04: "headerless
+        # stream init error desyncs the connection"; C01 key socket-headerless-init-outcome-unobserved-until-first-read),
+        # outside what run_pipe composes call by call: such programs are called through their *_h method.
         h = "_h"
     k = rng.choice([0, 1, 2, n, n + 1])
     afters = ["close", "cancel"] + (["abandon"] if last else [])
@@ -278,6 +286,24 @@ def fixed_scenarios() -> list[tuple[str, dict[int, dict[str, Any]], list[list[li
     ]
 
 
+_REPLAY: dict[str, Any] | None = None
+
+
+def replay(ctx: Any, data: dict[str, Any]) -> None:
+    """./check C41 --replay FILE: re-run exactly the recorded programs / scripts / transport / max_connections -- first under
+    the recorded schedule, then under further seeded schedules -- with all oracles and the model correspondence."""
+    global _REPLAY
+    rp = data.get("replay", data)
+    if not isinstance(rp, dict) or "scripts" not in rp or "programs" not in rp:
+        run(ctx)
+        return
+    _REPLAY = rp
+    try:
+        run(ctx)
+    finally:
+        _REPLAY = None
+
+
 def run(ctx: Any) -> None:
     translate(ctx)
     ctx.prove(
@@ -321,9 +347,26 @@ def run(ctx: Any) -> None:
             # a connection hung on this server before (already reported): its slots / threads are in an unknown state
             ctx.tally("skipped", f"{kind}/{maxc}: server hung earlier")
             return
+        repl0 = {"scenario": name, "transport": kind, "max_connections": maxc, "programs": progs, "scripts": scripts}
+        # ---- the reference first: every connection script alone on the same server
+        alone: list[list[list[list[Any]]]] = []
+        for i, sc in enumerate(scripts):
+            sk = json.dumps([sc, [progs[c[1] if c[0] == 'unary' else c[2]] for c in sc]], sort_keys=True)
+            key = (kind, maxc, sk)
+            if key not in solo_cache:
+                rs = D.run_case(h, [sc], rng, f"k{case_no}s{i}")
+                ctx.count("impl_runs")
+                ctx.count("solo_runs")
+                if rs["anomalies"]:
+                    ctx.violation("threaded-server:solo-run-anomaly", "; ".join(rs["anomalies"]), {**repl0, "connection": i})
+                    h.broken = True
+                    return
+                solo_cache[key] = rs["traces"][0]
+                solo_cases.setdefault(sk, (c_calls(progs, sc), c_traces(rs["traces"][0])))
+            alone.append(solo_cache[key])
         r = D.run_case(h, scripts, rng, f"k{case_no}", fixed_schedule=fixed, serve_raises=serve_raises)
         ctx.count("impl_runs")
-        repl = {"scenario": name, "transport": kind, "max_connections": maxc, "programs": progs, "scripts": scripts, "schedule": r["schedule"]}
+        repl = {**repl0, "schedule": r["schedule"]}
         sched = r["schedule"]
         interleaved = any(sched[j] != sched[j + 1] for j in range(len(sched) - 1))
         waited = maxc is not None and any(a == "enter" and any(b == "exit" for b, _ in r["gauge_events"][:idx]) for idx, (a, _) in enumerate(r["gauge_events"]))
@@ -338,11 +381,37 @@ def run(ctx: Any) -> None:
             for c in sc:
                 ctx.tally("call", c[0] + ("" if c[0] == "unary" else ":" + c[4]))
         # ---- anomalies of the run itself (hangs are observations, never harness hangs)
-        for a in r["anomalies"]:
-            key = "connection-hang" if a.startswith("hang") else a.split(":")[0]
-            ctx.violation(f"threaded-server:{key}", a, {**repl, "serve_raises_injected_for": list(serve_raises), "gauge_events": r["gauge_events"]})
-            h.broken = True
         if r["anomalies"]:
+            h.broken = True
+            detail = {**repl, "serve_raises_injected_for": list(serve_raises), "gauge_events": r["gauge_events"], "phases_when_stopped": r["phases"],
+                      "client_probes_after_the_hang": r["probes"]}
+            named = False
+            # (1) what the clients saw, against their alone-runs: a finished call that differs, or a connection that answers
+            #     with EOF / reset where it answers with results when alone
+            for i in range(len(scripts)):
+                seen = r["probes"].get(i) if isinstance(r["probes"].get(i), list) else (r["traces"][i] + ([r["partial"][i]] if r["partial"][i] else []))
+                lost = any(e[0] in ("conn_lost", "client_exc") for t in seen for e in t)
+                lost_alone = any(e[0] in ("conn_lost", "client_exc") for t in alone[i] for e in t)
+                done_calls = seen[:-1] if (seen and (isinstance(r["probes"].get(i), list) or r["partial"][i])) else seen
+                if lost and not lost_alone:
+                    named = True
+                    ctx.violation("connection-lost-instead-of-results-it-gets-when-served-alone",
+                                  f"connection {i} ({r['phases'][i]} when the run stopped) is answered with EOF / reset; alone it gets its results",
+                                  {**detail, "connection": i, "concurrent": seen, "alone": alone[i]})
+                elif done_calls != alone[i][: len(done_calls)]:
+                    named = True
+                    ctx.violation("concurrent-trace-differs-from-solo-run", f"connection {i} observed something else than when served alone",
+                                  {**detail, "connection": i, "concurrent": seen, "alone": alone[i]})
+            for a in r["anomalies"]:
+                if a.startswith("hang") and "queued, but none entered" in a:
+                    key = "queued-connection-never-served-although-a-slot-is-free"
+                elif a.startswith("hang"):
+                    key = "connection-hang"
+                else:
+                    key = a.split(":")[0]
+                if key in ("peer-address-unavailable",) and named:
+                    continue
+                ctx.violation(f"threaded-server:{key}", a, detail)
             return
         # ---- oracle 1: no more than max_connections served at once (the gauge is in the implementation)
         if maxc is not None and r["hw"] > maxc:
@@ -351,22 +420,10 @@ def run(ctx: Any) -> None:
         if not r["anomalies"] and any(p != "done" for p in r["phases"]):
             ctx.violation("connection-not-served-to-completion", f"final phases {r['phases']}", repl)
         # ---- oracle 3: same results as alone
-        for i, sc in enumerate(scripts):
-            key = (kind, maxc, json.dumps([sc, [progs[c[1] if c[0] == 'unary' else c[2]] for c in sc]], sort_keys=True))
-            if key not in solo_cache:
-                rs = D.run_case(h, [sc], rng, f"k{case_no}s{i}")
-                ctx.count("impl_runs")
-                ctx.count("solo_runs")
-                if rs["anomalies"]:
-                    ctx.violation("threaded-server:solo-run-anomaly", "; ".join(rs["anomalies"]), {**repl, "connection": i})
-                    h.broken = True
-                    return
-                solo_cache[key] = rs["traces"][0]
-                sk = json.dumps([sc, [progs[c[1] if c[0] == 'unary' else c[2]] for c in sc]], sort_keys=True)
-                solo_cases.setdefault(sk, (c_calls(progs, sc), c_traces(rs["traces"][0])))
-            if r["traces"][i] != solo_cache[key] and not r["anomalies"]:
+        for i in range(len(scripts)):
+            if r["traces"][i] != alone[i]:
                 ctx.violation("concurrent-trace-differs-from-solo-run", f"connection {i} observed something else than when served alone",
-                              {**repl, "connection": i, "concurrent": r["traces"][i], "alone": solo_cache[key]})
+                              {**repl, "connection": i, "concurrent": r["traces"][i], "alone": alone[i]})
         # ---- model input: the observed linearisation
         mc = "None" if maxc is None else f"(Some {maxc}%nat)"
         inp = f"({mc}, [{'; '.join(c_calls(progs, sc) for sc in scripts)}], {c_nats(sched)})"
@@ -378,13 +435,25 @@ def run(ctx: Any) -> None:
         if case_no <= 3:
             ctx.sample({"scenario": name, "transport": kind, "max_connections": maxc, "scripts": scripts, "schedule": sched, "served": r["served"], "hw": r["hw"]})
 
-    for name, progs, scripts, maxcs, fixed, raises in fixed_scenarios():
+    if _REPLAY is not None:
+        rp = _REPLAY
+        progs = {int(k): v for k, v in rp["programs"].items()}
+        for pid, p in progs.items():
+            I.register(pid, p)
+        raises = tuple(rp.get("serve_raises_injected_for", ()))
+        kinds = [rp["transport"]] if rp.get("transport") in ("unix", "tcp") else ["unix", "tcp"]
+        for kind in kinds:
+            # the recorded linearisation first (its entries are taken as the controller's choices), then seeded schedules
+            one_case("replay:" + str(rp.get("scenario")), kind, rp.get("max_connections"), progs, rp["scripts"], list(rp.get("schedule") or []) or None, raises)
+            for _ in range(6):
+                one_case("replay:" + str(rp.get("scenario")), kind, rp.get("max_connections"), progs, rp["scripts"], None, raises)
+    for name, progs, scripts, maxcs, fixed, raises in ([] if _REPLAY is not None else fixed_scenarios()):
         for pid, p in progs.items():
             I.register(pid, p)
         for kind in ("unix", "tcp"):
             for maxc in maxcs:
                 one_case(name, kind, maxc, progs, scripts, fixed if (fixed is not None and maxc is None) else None, raises)
-    n_random = 140 if thorough else 36
+    n_random = 0 if _REPLAY is not None else (140 if thorough else 36)
     pid0 = 100
     for j in range(n_random):
         nconn = rng.choice([2, 3, 3] + ([4] if thorough else []))
